@@ -11,12 +11,21 @@ pub mod oracle_commit;
 pub mod oracle_revoke;
 pub mod oracle_persist;
 pub mod chain;
+#[cfg(feature = "ext_c02")]
 pub mod ext_c02;
+#[cfg(feature = "ext_c03")]
 pub mod ext_c03;
+#[cfg(feature = "ext_c04")]
 pub mod ext_c04;
+#[cfg(feature = "ext_c06")]
 pub mod ext_c06;
+#[cfg(feature = "ext_c07")]
 pub mod ext_c07;
+#[cfg(feature = "ext_c08")]
 pub mod ext_c08;
+#[cfg(feature = "ext_c10")]
 pub mod ext_c10;
+#[cfg(feature = "ext_c11")]
 pub mod ext_c11;
+#[cfg(feature = "ext_c12")]
 pub mod ext_c12;
